@@ -26,6 +26,9 @@ class InjectedBase(BaseException):
     """A failure that is not an Exception subclass (like KeyboardInterrupt raised from the callable)."""
 
 
+_SHAPES = [0]
+
+
 class NonNote(Exception):
     """Not raised: stands for 'the callable fails by handing over something that is not a note' (None)."""
 
@@ -150,7 +153,18 @@ def edit(res, rng, api, pat, proj, setter, fault_at, scribble, dup_yield, case, 
             note = make_note(rng, api)
             expected[ln][tr] = note.raw_data
             return note
-        call = lambda: pat.set_via_fn(fn)
+        _SHAPES[0] += 1
+        shape = _SHAPES[0] % 3
+        if shape == 1:
+            import functools
+            call = lambda: pat.set_via_fn(functools.partial(lambda extra, p_, l_, t_: fn(p_, l_, t_), None))      # no __name__
+        elif shape == 2:
+            class _Callable:
+                def __call__(self, p_, l_, t_):
+                    return fn(p_, l_, t_)
+            call = lambda: pat.set_via_fn(_Callable())
+        else:
+            call = lambda: pat.set_via_fn(fn)
     else:
         cells = [(ln, tr) for ln in range(lines) for tr in range(tracks)]
         rng.shuffle(cells)
@@ -196,7 +210,18 @@ def edit(res, rng, api, pat, proj, setter, fault_at, scribble, dup_yield, case, 
                 yield ln, tr, note
             if fault_at is not None and counter["n"] == fault_at and fault_type is not NonNote:
                 raise fault_type("after last yield")
-        call = lambda: pat.set_via_gen(gen)
+        _SHAPES[0] += 1
+        shape = _SHAPES[0] % 4
+        if shape == 1 and fault_at is None and not scribble:
+            # the callable hands back a LIST (any iterable of (line, track, note) will do), built up front
+            call = lambda: pat.set_via_gen(lambda p_, new_: list(gen(p_, new_)))
+        elif shape == 2 and not scribble:
+            call = lambda: pat.set_via_gen(lambda p_, new_: iter(list(gen(p_, new_))) if fault_at is None else gen(p_, new_))
+        elif shape == 3:
+            import functools
+            call = lambda: pat.set_via_gen(functools.partial(lambda extra, p_, new_: gen(p_, new_), None))
+        else:
+            call = lambda: pat.set_via_gen(gen)
 
     try:
         r = call()
